@@ -449,6 +449,21 @@ impl C16 {
                     return None;
                 }
                 widen(16, made.bytes.len());
+                // BAM writers, a third of the runs: an invalid record is offered somewhere in the
+                // stream; both twins must refuse it and write the same file as without it
+                let rejected_at = match (&made.model, file.kind) {
+                    (kinds::Model::Align { parsed, .. }, kinds::Kind::Bam | kinds::Kind::BamRaw) if p.aio.seed % 3 == 0 && !parsed.records.is_empty() => (p.aio.seed / 3) as usize % parsed.records.len(),
+                    _ => usize::MAX,
+                };
+                crate::fmt::align::REJECTED_RECORD_AT.store(rejected_at, std::sync::atomic::Ordering::Relaxed);
+                struct Reset;
+                impl Drop for Reset {
+                    fn drop(&mut self) {
+                        crate::fmt::align::REJECTED_RECORD_AT.store(usize::MAX, std::sync::atomic::Ordering::Relaxed);
+                    }
+                }
+                let _reset = Reset;
+                stats.probe_if("invalid_record_offered_mid_stream", rejected_at != usize::MAX);
                 let sink = SimAsyncWrite::new(p.aio.clone(), counters.clone());
                 let s2 = sink.clone();
                 let r = crate::kernel::fresh_thread(|| aexec::run(&p.aio, counters.clone(), || faio::awrite(file.kind, &made.model, s2, p.workers)));
